@@ -9,6 +9,10 @@ CHECKS = {
          "Exploration: every generated/enumerated history of store operations is checked step by step against invariants derived from the statement (exact charging, free failures, capacity clamp, no energy creation, bounded spend, no raise). All op sequences up to depth 2 (quick) / 3 (thorough) over a 22-op alphabet on 6 configurations are enumerated completely; longer histories are sampled. Absence beyond that is not established.",
          "Trusts the public getters (get_balance/get_debt/get_state) as the observation of the ledger; amounts restricted to non-negative ints; background regeneration thread not started.",
          "DESIGN.md section 5 C04"),
+ "C06": ("Hypothesis-generated weighted ballots + exhaustive unweighted ballots against a reference criterion per strategy (exact rationals) and metamorphic monotonicity (block->permit, raise weight/confidence, raise abstainer weight)",
+         "Exploration: real QuorumSensing/EmergencyQuorum aggregate ballots cast by stub voters; S1-S7 of DESIGN C06 are checked on every case and on each single-voter metamorphic variant. Unweighted ballots over 5 vote kinds for up to 4 (quick) / 6 (thorough) voters x all strategies + emergency are enumerated completely; weighted ballots, custom thresholds and min_voters are sampled.",
+         "Stub voters replace AgentProfile.agent; weights/confidences restricted to a finite non-negative grid; BAYESIAN is held only to S2/S4/S6/S7, not to a formula.",
+         "DESIGN.md section 5 C06"),
 }
 PENDING_REASON = "check not registered yet in this commit: the generated-input check for this property is still under construction (see DESIGN.md section 5); nothing is claimed for it"
 
